@@ -600,3 +600,37 @@ func modeC15Live() {
 	close(stop)
 	wg.Wait()
 }
+
+// ---------------------------------------------------------------- C09 listener part: size limits per transport
+func modeC09() {
+	in, err := newInst("c09", instOpts{listeners: allListeners, upstreams: map[string]string{"u2": "tcp"}, rules: []ruleSpec{{Forward: "u2"}}})
+	if err != nil {
+		panic(err)
+	}
+	defer in.close()
+	type job struct {
+		lst   string
+		label string
+		opt   bool
+		size  uint16
+	}
+	var jobs []job
+	for _, lab := range []string{"r0t60d0fL", "r0t60d0fK", "r0t60d0fB", "r0t60d0"} {
+		for _, sz := range []int{-1, 0, 512, 600, 1232, 4096, 65535} {
+			jobs = append(jobs, job{"udp", lab, sz >= 0, uint16(max(sz, 0))})
+		}
+		for _, lst := range allListeners[1:] {
+			jobs = append(jobs, job{lst, lab, false, 0}, job{lst, lab, true, 1232})
+		}
+	}
+	par(len(jobs), func(i int) {
+		time.Sleep(time.Duration(i%20) * 10 * time.Millisecond)
+		j := jobs[i]
+		q := mkq(fmt.Sprintf("%s.%s.big.test.", uniq(), j.label))
+		q.typ = dns.TypeTXT
+		q.opt, q.optsize = j.opt, j.size
+		q.optzero = j.opt && j.size == 0
+		q.id = uint16(5000 + i)
+		in.send(j.lst, "", q, 5*time.Second, nil)
+	})
+}
